@@ -34,7 +34,7 @@ func (P *Program) newGen(fn *ssa.Function, ct *Contract, tier string) *Gen {
 	return &Gen{P: P, fn: fn, ct: ct, key: funcKey(fn), tier: tier,
 		declared: map[string]bool{}, heapSort: map[string]string{}, vals: map[ssa.Value]Val{},
 		oblCount: map[string]int{}, callees: map[string]bool{}, siteOrd: map[string]int{},
-		verAlloc: map[string]string{}, tagAlloc: map[string]string{}}
+		verAlloc: map[string]string{}, tagAlloc: map[string]string{}, versions: map[string][]heapVersion{}, heapKind: map[string]string{}}
 }
 
 func (P *Program) generate(fn *ssa.Function, ct *Contract, tier string) (g *Gen, unsup string) {
@@ -187,6 +187,7 @@ func (P *Program) discharge(g *Gen, timeoutS int, confirm bool) {
 		ob.Solver, ob.Secs, ob.Output = r.Solver, r.Secs, r.Output
 		cachePut(h, cacheEntry{ob.Status, r.Solver, r.Secs})
 	}
+	P.smoke(g, base, dir)
 	if len(goals) == 0 {
 		return
 	}
@@ -266,6 +267,65 @@ func (P *Program) discharge(g *Gen, timeoutS int, confirm bool) {
 		}(i, ob)
 	}
 	wg.Wait()
+}
+
+// smoke is the vacuity guard: every basic block and every return must be
+// reachable under all assumptions made so far (contract preconditions, callee
+// postconditions, loop invariants, axioms), except for the number of dead
+// points the contract declares (`deadpoints N`: code that is really dead,
+// e.g. the error branch after a call whose contract excludes the error).
+// A contradiction among assumptions shows up as extra dead points.
+func (P *Program) smoke(g *Gen, base, dir string) {
+	if len(g.smokePts) == 0 {
+		return
+	}
+	var b strings.Builder
+	b.WriteString(base)
+	for _, p := range g.smokePts {
+		b.WriteString("(push 1)\n(assert " + p.reach + ")\n(check-sat)\n(pop 1)\n")
+	}
+	scr := b.String()
+	h := hashStr("smoke\n" + scr)
+	ob := &Obligation{Name: g.key + "/cover/reachability#0", Kind: "cover", Pos: g.P.fset.Position(g.fn.Pos()),
+		Desc: "no assumption contradicts the others: dead points match the contract's `deadpoints`"}
+	g.obls = append(g.obls, ob)
+	want := 0
+	if g.ct != nil {
+		want = g.ct.DeadPoints
+	}
+	var out string
+	if ce, ok := cacheGet(h); ok {
+		out = ce.Solver
+	} else {
+		f := filepath.Join(dir, "smoke.smt2")
+		_ = writeFile(f, strings.Replace(scr, "(set-logic ALL)", "(set-logic ALL)\n(set-option :timeout 1500)", 1))
+		r := runSolver(solvers[1], f, 120)
+		out = r.Output
+		cachePut(h, cacheEntry{"smoke", out, r.Secs})
+	}
+	var dead []string
+	lines := strings.Fields(out)
+	k := 0
+	for _, l := range lines {
+		if l != "sat" && l != "unsat" && l != "unknown" {
+			continue
+		}
+		if k < len(g.smokePts) && l == "unsat" {
+			dead = append(dead, g.smokePts[k].name)
+		}
+		k++
+	}
+	if k != len(g.smokePts) {
+		ob.Status = "cover-unknown"
+		ob.Output = fmt.Sprintf("smoke run answered %d of %d points\n%s", k, len(g.smokePts), truncate(out, 2000))
+		return
+	}
+	ob.Output = fmt.Sprintf("dead points (%d, contract declares %d): %v", len(dead), want, dead)
+	if len(dead) != want {
+		ob.Status = "vacuous"
+	} else {
+		ob.Status = "covered"
+	}
 }
 
 func (P *Program) verify(key string, tier string, timeoutS int) *FuncResult {
@@ -418,7 +478,9 @@ func printFuncResult(r *FuncResult, verbose bool) int {
 		if ob.Kind == "cover" {
 			if ob.Status == "vacuous" {
 				bad++
-				fmt.Printf("   VACUOUS %s\n", ob.Name)
+				fmt.Printf("   VACUOUS %s %s\n", ob.Name, ob.Output)
+			} else if verbose {
+				fmt.Printf("   cover %s %s %s\n", ob.Name, ob.Status, ob.Output)
 			}
 			continue
 		}
